@@ -16,7 +16,7 @@ func init() {
 	register(&Property{
 		ID:      "C07",
 		NeedSSA: true,
-		Decided: "Structural necessary conditions: (hashdomain) for every physical kind the write side (splitBlockEncoding.Encode<K>, through its static callees) and the read side (Value.hash case K, through bloom.XXH64) reach xxhash functions of the same element width, and the bit-packed BOOLEAN page bytes never flow unmodified into a per-byte hash; (strategies) in flushFilterPages the `filter already filled` early exit is evaluated only for columns without a dictionary, the dictionary strategy is not chosen for a chunk that fell back to PLAIN, every non-copied column passes through flushFilterPages before its filter is written, and writeDataPage feeds the filter exactly for non-dictionary pages of a pre-sized filter; bloom filters are sized after buffered rows were flushed on the packing path; (check) CheckSplitBlock over decompressed bytes is given the length of those bytes; (own) bytes handed to a retained FileBloomFilter are allocated per filter; (header) the header written and the predicates that accept it name the same algorithm, hash and compression variants. (strategies, cont.) in flushFilterPages no sizing of the filter (which zeroes it) is reachable after an insertion, following constant boolean flags. (section) where io.NewSectionReader is given a bytes.Reader made from a slice in the same function, its length is the length of that very slice (the filter derives its block count from the section size). (everypage) in writeDataPage the test that leads to the insertion of the page into a filter sized in advance dominates every successful return (the plaintext exit and the encrypted one).",
+		Decided: "Structural necessary conditions: (hashdomain) for every physical kind the write side (splitBlockEncoding.Encode<K>, through its static callees) and the read side (Value.hash case K, through bloom.XXH64) reach xxhash functions of the same element width, and the bit-packed BOOLEAN page bytes never flow unmodified into a per-byte hash; (strategies) in flushFilterPages the `filter already filled` early exit is evaluated only for columns without a dictionary, the dictionary strategy is not chosen for a chunk that fell back to PLAIN, every non-copied column passes through flushFilterPages before its filter is written, and writeDataPage feeds the filter exactly for non-dictionary pages of a pre-sized filter; bloom filters are sized after buffered rows were flushed on the packing path; (check) CheckSplitBlock over decompressed bytes is given the length of those bytes; (own) bytes handed to a retained FileBloomFilter are allocated per filter; (header) the header written and the predicates that accept it name the same algorithm, hash and compression variants. (strategies, cont.) in flushFilterPages no sizing of the filter (which zeroes it) is reachable after an insertion, following constant boolean flags. (section) where io.NewSectionReader is given a bytes.Reader made from a slice in the same function, its length is the length of that very slice (the filter derives its block count from the section size). (everypage) in writeDataPage the test that leads to the insertion of the page into a filter sized in advance dominates every successful return (the plaintext exit and the encrypted one). (filterless) a Check method that asks the BloomFilter() of several member chunks in a loop returns true on the nil edge of a member's result instead of going on to the next member.",
 		NotDecided: "the hash functions, block selection and masks themselves; the assembly kernels; filter sizing arithmetic; false-positive rates.",
 		Assumptions: []string{"xxhash defines MultiSum64Uint128 over 16-byte values equal to Sum64 over the same bytes (unit-tested upstream)"},
 		Run:         runC07,
@@ -24,6 +24,7 @@ func init() {
 }
 
 func runC07(c *Ctx) {
+	c07Filterless(c)
 	c07HashDomain(c)
 	c07Strategies(c)
 	c07Check(c)
